@@ -11,10 +11,21 @@ the connectivity of the output mesh):
   (f) the cut mesh is a manifold disk: 1 component, 1 border loop, Euler characteristic 1
   (g) closed sphere with < 2 singularities: no cut edge, the output is the (relabelled) input: closed, chi = 2
 
-request extensions (optional, not needed by the protocol): "all": true collects every failing case of the family in
-the answer field "all_failures" instead of stopping at the first one (used to triage).
+Family: ~30 named meshes (single triangle, 2- and 5-triangle strips, fan, jittered / regular grids with 0-4 holes, folded
+"roof" grid, cylinder, tetra / octa / icosahedron with and without removed faces, closed and open subdivided cubes,
+tori with 0-3 removed faces, double tori with and without border, geometrically degenerate copies) x ~20 singularity
+sets (empty, single interior / border, adjacent pairs, far pairs, whole border, clusters, repeated entry, random,
+every vertex) x feature options (none, detector restricted to the border, real crease detection, creases driven by
+user-supplied face normals: 2 / 3 chunks, island, single-face island, salt and pepper) x container types.
+
+"known" handling: the known cases are replayed first; those that still fail are returned in "known_hit".  Family cases
+equal to a known case are skipped.  In addition a failing family case whose *defect class* -- (border | closed | sphere,
+interior feature edges present, kind of singularity set, letters of the failed clauses) -- equals the class of a known
+case that still fails is counted in "known_siblings" and not reported again (one defect makes hundreds of family
+members fail in the same way); "strict_known": true switches this off.
+Other optional request fields: "all": true collects every failing case in "all_failures" instead of stopping.
 """
-import math, random, signal, traceback
+import math, random, re, signal, traceback
 import numpy as np
 from replay.common import *
 from replay.meshcheck import analyse
@@ -173,8 +184,17 @@ def build_lists(desc):
         return [list(map(float, v)) for v in desc['vertices']], [tuple(int(x) for x in f) for f in desc['faces']]
     d = dict(desc)
     fam = d.pop('family')
+    squash = d.pop('squash', None)
     V, F = FAMILIES[fam](**d)
-    return [list(map(float, v)) for v in V], [tuple(int(x) for x in f) for f in F]
+    V = [list(map(float, v)) for v in V]
+    if squash == 'zero':            # degenerate geometry: every vertex at the origin (all edge lengths 0, all ties)
+        V = [[0.0, 0.0, 0.0] for v in V]
+    elif squash == 'line':          # everything flattened onto integer abscissae
+        V = [[float(round(v[0])), 0.0, 0.0] for v in V]
+    elif squash == 'collapse':      # a few zero-length edges
+        for (a, b, c) in F[::3]:
+            V[b] = list(V[a])
+    return V, [tuple(int(x) for x in f) for f in F]
 
 
 def to_mesh(V, F):
@@ -242,7 +262,13 @@ def _alarm(signum, frame):
 
 
 def run_case(case):
-    """-> error string or None"""
+    """-> (error string or None, defect-class signature)"""
+    err, sig = _run_case(case)
+    letters = ''.join(sorted(set(re.findall(r'(?:^| \| )\((\w)\)', err)))) if err else ''
+    return err, (sig + (letters or ('x' if err else ''),))
+
+
+def _run_case(case):
     V, F = build_lists(case['mesh'])
     info = analyse(len(V), F)
     if info['problems'] or info['n_components'] != 1 or any(len(f) != 3 for f in F):
@@ -254,6 +280,14 @@ def run_case(case):
     if Fin != F or len(Pin) != len(V):
         raise AssertionError('oracle bug: SurfaceMesh changed the face list')
     S = [int(s) for s in case['singularities']]
+    tab0 = edge_table(Fin)
+    topo = 'border' if info['n_border_loops'] else ('sphere' if info['chi'] == 2 else 'closed')
+    if not S:
+        skind = 'none'
+    elif topo != 'sphere':
+        skind = 'some'
+    else:
+        skind = 'one' if len(set(S)) == 1 else 'adjacent_pair' if len(set(S)) == 2 and (min(S), max(S)) in tab0 else 'many'
     cont = case.get('container', 'list')
     arg = {'list': list, 'tuple': tuple, 'set': set, 'ndarray': np.array}[cont](S)
     signal.signal(signal.SIGALRM, _alarm)
@@ -265,6 +299,8 @@ def run_case(case):
             raise
         except Exception as e:
             raise AssertionError('oracle bug: the feature detector failed: %r' % (e,))
+        active = fd is not None and any(len(tab0[Ein[int(e)]]) == 2 for e in fd.feature_edges)     # an interior feature edge exists
+        sig = (topo, bool(active), skind)
         try:
             cutter = SingularityCutter(m, arg, features=fd, verbose=False) if fd is not None else SingularityCutter(m, arg)
             cutter.run()
@@ -272,15 +308,15 @@ def run_case(case):
             ref = cutter.ref_vertex
             cut = cutter.cut_edges
         except Timeout:
-            return 'the cutter did not finish within 40 s'
+            return 'the cutter did not finish within 40 s', sig
         except Exception as e:
             tb = traceback.extract_tb(e.__traceback__)
             loc = [t for t in tb if '/mouette/' in t.filename]
             where = ' at %s:%d (%s)' % (loc[-1].filename.split('/mouette/')[-1], loc[-1].lineno, loc[-1].name) if loc else ''
-            return 'the cutter raised %s: %s%s' % (type(e).__name__, e, where)
+            return 'the cutter raised %s: %s%s' % (type(e).__name__, e, where), sig
     finally:
         signal.alarm(0)
-    return verify(Fin, Pin, Ein, info, S, cut, out, ref)
+    return verify(Fin, Pin, Ein, info, S, cut, out, ref), sig
 
 
 def verify(Fin, Pin, Ein, info, S, cut, out, ref):
@@ -378,7 +414,8 @@ def verify(Fin, Pin, Ein, info, S, cut, out, ref):
 def mesh_descs(seed, thorough):
     D = [
         {'family': 'tri'},
-        {'family': 'strip', 'n': 5},
+        {'family': 'strip', 'n': 2},                                                                  # two triangles
+        {'family': 'strip', 'n': 5},                                                                  # no interior vertex
         {'family': 'fan', 'n': 6},
         {'family': 'grid', 'nu': 4, 'nv': 6, 'jitter': 0.12, 'seed': seed},
         {'family': 'grid', 'nu': 5, 'nv': 5},                                                         # regular: ties between shortest paths
@@ -388,17 +425,22 @@ def mesh_descs(seed, thorough):
         {'family': 'cylinder', 'nu': 6, 'nv': 4, 'jitter': 0.05, 'seed': seed},
         {'family': 'tetra'},
         {'family': 'octa'},
-        {'family': 'octa', 'remove': [0]},                                                            # disk without interior vertex... (3 interior)
+        {'family': 'octa', 'remove': [0]},                                                            # octahedron minus a face: a disk
         {'family': 'icosa'},
         {'family': 'icosa', 'jitter': 0.1, 'seed': seed, 'remove': [0, 12]},                            # sphere with two holes
         {'family': 'cube', 'n': 2},
         {'family': 'cube', 'n': 2, 'open_top': True, 'jitter': 0.03, 'seed': seed},
+        {'family': 'cube', 'n': 3},                                                                   # regular: many equal-length shortest paths
         {'family': 'torus', 'nu': 4, 'nv': 5, 'jitter': 0.05, 'seed': seed},
         {'family': 'torus', 'nu': 5, 'nv': 5},                                                        # regular torus
         {'family': 'torus', 'nu': 5, 'nv': 6, 'jitter': 0.05, 'seed': seed, 'remove': [7]},              # genus 1, one loop
         {'family': 'torus', 'nu': 5, 'nv': 6, 'remove': [3, 40]},                                        # genus 1, two loops
         {'family': 'double_torus', 'nu': 4, 'nv': 4, 'mu': 4, 'mv': 5, 'jitter': 0.04, 'seed': seed},
         {'family': 'double_torus', 'nu': 4, 'nv': 4, 'mu': 4, 'mv': 4, 'remove': [5]},                   # genus 2 with a border
+        {'family': 'grid', 'nu': 5, 'nv': 6, 'squash': 'zero'},                                         # degenerate geometry, admissible combinatorics
+        {'family': 'torus', 'nu': 4, 'nv': 5, 'squash': 'line'},
+        {'family': 'grid', 'nu': 6, 'nv': 6, 'holes': [[2, 2]], 'squash': 'collapse'},
+        {'family': 'icosa', 'squash': 'collapse'},
     ]
     if thorough:
         D += [
@@ -406,7 +448,7 @@ def mesh_descs(seed, thorough):
             {'family': 'grid', 'nu': 8, 'nv': 8},
             {'family': 'grid', 'nu': 9, 'nv': 10, 'jitter': 0.08, 'seed': seed + 4, 'holes': [[1, 1], [1, 6], [5, 3], [6, 7]]},
             {'family': 'cylinder', 'nu': 9, 'nv': 5},
-            {'family': 'cube', 'n': 3},
+            {'family': 'cube', 'n': 4},
             {'family': 'cube', 'n': 4, 'open_top': True},
             {'family': 'icosa', 'remove': [3]},
             {'family': 'torus', 'nu': 7, 'nv': 8, 'jitter': 0.04, 'seed': seed + 5},
@@ -455,6 +497,17 @@ def singularity_sets(V, F, rnd, thorough):
         if nV > k:
             add(sorted(rnd.sample(range(nV), k)))
             s = rnd.sample(range(nV), k); add(s)          # unsorted order
+    add([nV // 2, 0, nV // 2])                             # a repeated entry
+    nb = {v: set() for v in range(nV)}
+    for a, b in tab:
+        nb[a].add(b); nb[b].add(a)
+    for start in (nV // 2, nV // 3):                      # clusters of mutually adjacent singularities
+        ball = [start]
+        for v in ball:
+            ball += [u for u in sorted(nb[v]) if u not in ball]
+            if len(ball) >= 7:
+                break
+        add(ball[:7])
     if nV <= (60 if thorough else 36):
         add(list(range(nV)))                              # every vertex singular
     return sets
@@ -474,15 +527,17 @@ def bfs_ball(F, start, count):
     return set(order[:count])
 
 
-def feature_options(V, F, rnd):
+def feature_options(V, F, rnd, geometric=True):
     nF = len(F)
-    opts = [{'mode': 'none'}, {'mode': 'only_border'}, {'mode': 'detect'}]
-    if nF >= 4:
+    opts = [{'mode': 'none'}] + ([{'mode': 'only_border'}, {'mode': 'detect'}] if geometric else [])   # the detector itself needs non-degenerate faces
+    if nF >= 2:
         opts.append({'mode': 'normals', 'labels': [0 if f < nF // 2 else 1 for f in range(nF)]})                   # two chunks
+    if nF >= 4:
         opts.append({'mode': 'normals', 'labels': [(3 * f) // nF for f in range(nF)]})                              # three chunks
         ball = bfs_ball(F, nF // 2, max(2, nF // 4))
         opts.append({'mode': 'normals', 'labels': [1 if f in ball else 0 for f in range(nF)]})                      # an island
         opts.append({'mode': 'normals', 'labels': [rnd.randrange(3) for f in range(nF)]})                            # salt and pepper
+        opts.append({'mode': 'normals', 'labels': [1 if f == nF // 3 else 0 for f in range(nF)]})                    # a single-face island
     return opts
 
 
@@ -495,7 +550,7 @@ def family(seed, thorough):
     for md in mesh_descs(seed, thorough):
         V, F = build_lists(md)
         sets = singularity_sets(V, F, rnd, thorough)
-        fopts = feature_options(V, F, rnd)
+        fopts = feature_options(V, F, rnd, geometric='squash' not in md)
         for io, fo in enumerate(fopts):
             # the full list of singularity sets without features, a lighter one with each feature option
             for i, S in enumerate(sets):
@@ -547,43 +602,51 @@ def main():
     thorough = req.get('tier') == 'thorough'
     if mode == 'replay':
         case = strip_error(req['case'])
-        err = run_case(case)
-        respond(failing=dict(case, error=err) if err else None, cases=1)
+        err, sig = run_case(case)
+        respond(failing=dict(case, error=err) if err else None, cases=1, defect_class=list(sig))
     known = [strip_error(k) for k in (req.get('known') or [])]
+    strict = bool(req.get('strict_known'))
     budget = Budget(270 if thorough else 50)
-    n, hits, allf, seen = 0, [], [], []
-    # known cases first: which of them still fail?
+    n, hits, allf, siblings = 0, [], [], 0
+    known_classes = set()
+    # the known cases first: which of them still fail, and with which defect class
+    # (defect class = (border / closed / sphere, feature constraints active, kind of singularity set, failed clauses))
     for k in known:
-        try:
-            err = run_case(k)
-        except AssertionError:
-            raise
+        err, sig = run_case(k)
         n += 1
         if err:
             hits.append(dict(k, error=err))
+            known_classes.add(sig)
 
     def gen():
         for c in family(seed, thorough):
             yield c
         if mode == 'search' or thorough:
-            for c in random_family(seed, 4000 if thorough else 1500):
+            for c in random_family(seed, 6000 if thorough else 1500):
                 yield c
+    truncated = False
     for case in gen():
         if budget.over():
+            truncated = True
             break
         if case in known:
             continue
         n += 1
-        err = run_case(case)
+        err, sig = run_case(case)
         if err:
+            if sig in known_classes and not strict:
+                # same mesh class, same option class, same clauses as a known case that still fails: the same defect
+                # seen on another member of the family; counted, not reported again ("strict_known": true disables this)
+                siblings += 1
+                continue
             f = dict(case, error=err)
             if req.get('all'):
                 allf.append(f)
                 continue
-            respond(failing=f, cases=n, known_hit=hits)
-    if req.get('all'):
-        respond(failing=allf[0] if allf else None, cases=n, known_hit=hits, all_failures=allf)
-    respond(failing=None, cases=n, known_hit=hits)
+            respond(failing=f, cases=n, known_hit=hits, known_siblings=siblings, defect_class=list(sig))
+    extra = {'all_failures': allf} if req.get('all') else {}
+    respond(failing=allf[0] if allf else None, cases=n, known_hit=hits, known_siblings=siblings,
+            note='time budget reached, family truncated' if truncated else None, **extra)
 
 
 main()
